@@ -171,6 +171,10 @@ func Reach(id string)           {}
 func Known(id string, c bool)   {}
 func Observe(l string, v uint64) { fmt.Printf("VF-OBS %s=%d\n", l, v) }
 func AllMapOrders(on bool)      {}
+
+// AllSchedules asks the symbolic executor to fork over which runnable goroutine continues at every
+// blocking point (non-preemptive schedules). Natively the Go scheduler decides.
+func AllSchedules(on bool) {}
 func Symbolic() bool            { return false }
 
 func Panics(f func()) (p bool) {
